@@ -183,6 +183,20 @@ func checkVector(mc *modelCase, cfg rwConfig, backend string, caseSeed int64) (f
 	return
 }
 
+// initialStatesOf: the rows of the model's own InitialiseStates(NCells) for the case's parameters
+func initialStatesOf(mc *modelCase) [][]float64 {
+	mm := mc.newModel(mc.paramsArray())
+	st := mm.InitialiseStates(mc.NCells)
+	rows := make([][]float64, mc.NCells)
+	for c := range rows {
+		rows[c] = make([]float64, st.Len(1))
+		for k := range rows[c] {
+			rows[c][k] = st.Get2(c, k)
+		}
+	}
+	return rows
+}
+
 func runwrapEngine(args []string) error {
 	if len(args) < 1 {
 		return fmt.Errorf("usage: runwrap <configs> [-models ..] [-draws n] [-backends go,c] [-progress f]")
@@ -236,6 +250,17 @@ func runwrapEngine(args []string) error {
 					r := rand.New(rand.NewSource(caseSeed))
 					mc := genCase(r, name, cfg.NP, cfg.NC, cfg.NB, cfg.T)
 					fails, ev := checkVector(mc, cfg, b, caseSeed)
+					if len(fails) == 0 && b == "go" && len(mc.States) > 0 && len(mc.States[0]) > 0 {
+						// the same case on the state array the model itself hands out for NC cells
+						own := *mc
+						own.OwnStates = true
+						own.States = initialStatesOf(&own)
+						f2, ev2 := checkVector(&own, cfg, "go", caseSeed)
+						for i := range f2 {
+							f2[i].Kind += "/own-states"
+						}
+						fails, ev = append(fails, f2...), ev+ev2
+					}
 					s.Evaluations += ev
 					s.Distinct++
 					for _, f := range fails {
